@@ -141,7 +141,9 @@ def enum_variants(src, name):
         v = re.sub(r"#\[[^\]]*\]", "", v).strip()
         if not v:
             continue
-        mm = re.match(r"([A-Za-z0-9_]+)\s*(\{(.*)\}|\((.*)\))?\s*(=\s*(-?\d+))?", v, flags=re.S)
+        mm = re.match(r"([A-Za-z0-9_]+)\s*(\{(.*)\}|\((.*)\))?\s*(=\s*(.+?))?\s*$", v, flags=re.S)
+        if not mm:
+            raise ExtractError(f"enum {name}: cannot parse variant {v!r}")
         fields = []
         if mm.group(3) is not None:
             for f in mm.group(3).split(","):
@@ -149,7 +151,16 @@ def enum_variants(src, name):
                 if f:
                     fn, ft = f.split(":", 1)
                     fields.append((fn.strip(), ft.strip()))
-        disc = int(mm.group(6)) if mm.group(6) is not None else None
+        # an explicit discriminant is a constant expression (`3`, `0x3`, `0b11`, `3_u32`, ...): evaluate it,
+        # never read a prefix of it
+        disc = None
+        if mm.group(6) is not None:
+            dv = eval_const(mm.group(6), {})
+            if isinstance(dv, Fraction):
+                if dv.denominator != 1:
+                    raise ExtractError(f"enum {name}::{mm.group(1)}: discriminant {mm.group(6)!r} is not integral")
+                dv = int(dv)
+            disc = dv
         res.append((mm.group(1), fields, disc))
     return res
 
